@@ -1,2 +1,235 @@
 //! Kani harnesses for unit writer (see /verif/notes/AGENT-BRIEF.md for naming: full_*, bnd_*, cex_*).
+//!
+//! `Writer::write_compressed_unhinted_name` (src/message/writer.rs:1091-1316: nested closures,
+//! take/enumerate/filter_map/fold) is outside Verus's reach; the Verus units ASSUME the contract
+//! `compressed_post` for it (units/frag/writer_compress_assumed.vrs).  The harnesses below check
+//! that contract on the REAL code through the public API, BOUNDED:
+//!   * buffer of 64 octets;
+//!   * prior names: the QNAME (bnd_write_compressed_owner_*), or the QNAME plus the owner of a
+//!     first record (bnd_write_compressed_two_priors): at most 2 prior names;
+//!   * every symbolic name has at most MAXL non-null labels of at most MAXO octets
+//!     (wire length <= NB), all label octets symbolic.
+//! Checked for the compressee written by write_compressed_unhinted_name:
+//!   (1) decoding what was written at the old cursor with an independent RFC 1035 4.1.4
+//!       decoder yields the name (ASCII-case-insensitively in standard mode, exactly in
+//!       case-preserving mode), and the first chunk ends at the new cursor;
+//!   (2) every pointer met while decoding targets the first octet of a label of a name written
+//!       earlier (a recorded label start), strictly before the pointer's own position;
+//!   (3) the compressed form is never longer than the uncompressed one;
+//!   (4) no panic (index, arithmetic, "invalid pointer found during compression").
 #![allow(unused_imports, dead_code)]
+use crate::class::Class;
+use crate::message::writer::{CompressionMode, Hint, HintedName, Writer};
+use crate::message::{Qclass, Qtype, Question};
+use crate::name::Name;
+use crate::rr::{Rdata, Ttl, Type};
+
+/// Bound: non-null labels per symbolic name, octets per label.
+const MAXL: usize = 2;
+const MAXO: usize = 2;
+/// Wire length bound of a symbolic name: MAXL * (1 + MAXO) + 1.
+const NB: usize = MAXL * (1 + MAXO) + 1;
+const BUF: usize = 64;
+/// Upper bound on label starts recorded (header excluded): 3 names * (MAXL + 1).
+const MAXSTARTS: usize = 3 * (MAXL + 1);
+
+/// Any valid name within the bound (built by the crate's own parser, verified in C14).
+fn any_name() -> Box<Name> {
+    let bytes: [u8; NB] = kani::any();
+    let n: usize = kani::any();
+    kani::assume(n >= 1 && n <= NB);
+    match Name::try_from_uncompressed_all(&bytes[..n]) {
+        Ok(name) => name,
+        Err(_) => {
+            kani::assume(false);
+            unreachable!()
+        }
+    }
+}
+
+fn lc(b: u8) -> u8 {
+    if b >= b'A' && b <= b'Z' {
+        b + 32
+    } else {
+        b
+    }
+}
+
+struct Starts {
+    at: [usize; MAXSTARTS],
+    n: usize,
+}
+
+impl Starts {
+    fn new() -> Self {
+        Starts { at: [0; MAXSTARTS], n: 0 }
+    }
+    fn push(&mut self, p: usize) {
+        if self.n < MAXSTARTS {
+            self.at[self.n] = p;
+            self.n += 1;
+        }
+    }
+    fn contains(&self, p: usize) -> bool {
+        let mut k = 0;
+        let mut found = false;
+        while k < MAXSTARTS {
+            if k < self.n && self.at[k] == p {
+                found = true;
+            }
+            k += 1;
+        }
+        found
+    }
+}
+
+/// Independent decoder (RFC 1035 4.1.4) for the name at `start` in `msg[..end]`.
+/// Checks (1) and (2) against `expect` (uncompressed wire form) and records the label starts of
+/// the first chunk (positions >= start) into `starts` AFTER the checks, so that a pointer can
+/// only be justified by an EARLIER name.  Returns the first-chunk length.
+fn check_name_at(msg: &[u8], end: usize, start: usize, expect: &[u8], exact: bool, starts: &mut Starts) -> usize {
+    let mut pos = start;
+    let mut out = 0usize; // octets of `expect` matched so far
+    let mut first_chunk_len: Option<usize> = None;
+    let mut new_starts = Starts::new();
+    let mut steps = 0;
+    let mut done = false;
+    // at most MAXL + 1 labels plus MAXL + 1 pointer hops
+    while steps < 2 * (MAXL + 1) + 1 && !done {
+        steps += 1;
+        assert!(pos < end);
+        let len = msg[pos] as usize;
+        if len & 0xc0 == 0xc0 {
+            assert!(pos + 1 < end);
+            let target = ((len & 0x3f) << 8) | msg[pos + 1] as usize;
+            // (2) strictly backwards, to a recorded label start of an earlier name
+            assert!(target < pos);
+            assert!(starts.contains(target));
+            if first_chunk_len.is_none() {
+                first_chunk_len = Some(pos + 2 - start);
+            }
+            pos = target;
+        } else {
+            assert!(len <= 63);
+            if first_chunk_len.is_none() {
+                new_starts.push(pos);
+            }
+            // (1) the label equals the next label of the expected name
+            assert!(out < expect.len());
+            assert!(expect[out] as usize == len);
+            assert!(out + 1 + len <= expect.len());
+            assert!(pos + 1 + len <= end);
+            let mut k = 0;
+            while k < MAXO {
+                if k < len {
+                    let a = msg[pos + 1 + k];
+                    let b = expect[out + 1 + k];
+                    if exact {
+                        assert!(a == b);
+                    } else {
+                        assert!(lc(a) == lc(b));
+                    }
+                }
+                k += 1;
+            }
+            assert!(len <= MAXO);
+            out += 1 + len;
+            if len == 0 {
+                if first_chunk_len.is_none() {
+                    first_chunk_len = Some(pos + 1 - start);
+                }
+                done = true;
+            } else {
+                pos += 1 + len;
+            }
+        }
+    }
+    assert!(done);
+    assert!(out == expect.len());
+    let mut k = 0;
+    while k < MAXSTARTS {
+        if k < new_starts.n {
+            starts.push(new_starts.at[k]);
+        }
+        k += 1;
+    }
+    first_chunk_len.unwrap()
+}
+
+fn question(qname: Box<Name>) -> Question {
+    Question {
+        qname,
+        qtype: Qtype::from(1),
+        qclass: Qclass::from(1),
+    }
+}
+
+/// One prior name (the QNAME); the compressee is the owner of an answer RR (Hint::None).
+fn owner_against_qname(mode: CompressionMode) {
+    let mut buf = [0u8; BUF];
+    let qname = any_name();
+    let owner = any_name();
+    // write_compressed_unhinted_name is only reached for names longer than a pointer
+    kani::assume(owner.wire_repr().len() > 2);
+    let q = question(qname);
+    let mut w = Writer::new(&mut buf, BUF).unwrap();
+    w.set_compression_mode(mode);
+    w.add_question(&q).unwrap();
+    let rdata: &Rdata = (&[1u8, 2, 3, 4]).try_into().unwrap();
+    w.add_answer_rr(HintedName::new(Hint::None, &owner), Type::A, Class::IN, Ttl::from(0), rdata, None)
+        .unwrap();
+    let len = w.finish();
+
+    let mut starts = Starts::new();
+    let exact = mode == CompressionMode::CasePreserving;
+    let qlen = check_name_at(&buf, len, 12, q.qname.wire_repr(), true, &mut starts);
+    assert!(qlen == q.qname.wire_repr().len());
+    let owner_at = 12 + qlen + 4;
+    let olen = check_name_at(&buf, len, owner_at, owner.wire_repr(), exact, &mut starts);
+    // (3)
+    assert!(olen <= owner.wire_repr().len());
+    // the RR's fixed part and RDATA follow the owner directly
+    assert!(len == owner_at + olen + 10 + 4);
+}
+
+#[kani::proof]
+#[kani::unwind(12)]
+pub(crate) fn bnd_write_compressed_owner_standard() {
+    owner_against_qname(CompressionMode::Standard);
+}
+
+#[kani::proof]
+#[kani::unwind(12)]
+pub(crate) fn bnd_write_compressed_owner_case_preserving() {
+    owner_against_qname(CompressionMode::CasePreserving);
+}
+
+/// Two prior names (QNAME and the owner of a first record, which also becomes the most recent
+/// name... in RDATA is exercised through an NS record): the compressee is the NS target.
+#[kani::proof]
+#[kani::unwind(12)]
+pub(crate) fn bnd_write_compressed_two_priors() {
+    let mut buf = [0u8; BUF];
+    let qname = any_name();
+    let owner = any_name();
+    let target = any_name();
+    kani::assume(target.wire_repr().len() > 2);
+    let q = question(qname);
+    let mut w = Writer::new(&mut buf, BUF).unwrap();
+    w.add_question(&q).unwrap();
+    let rdata: &Rdata = target.wire_repr().try_into().unwrap();
+    w.add_answer_rr(HintedName::new(Hint::None, &owner), Type::NS, Class::IN, Ttl::from(0), rdata, None)
+        .unwrap();
+    let len = w.finish();
+
+    let mut starts = Starts::new();
+    let qlen = check_name_at(&buf, len, 12, q.qname.wire_repr(), true, &mut starts);
+    let owner_at = 12 + qlen + 4;
+    let olen = check_name_at(&buf, len, owner_at, owner.wire_repr(), false, &mut starts);
+    let target_at = owner_at + olen + 10;
+    let tlen = check_name_at(&buf, len, target_at, target.wire_repr(), false, &mut starts);
+    assert!(tlen <= target.wire_repr().len());
+    // RDLENGTH matches the compressed RDATA
+    assert!(((buf[target_at - 2] as usize) << 8 | buf[target_at - 1] as usize) == tlen);
+    assert!(len == target_at + tlen);
+}
